@@ -5,7 +5,8 @@
 (* describing functions, is compared with the reference semantics Eval of  *)
 (* Dataflow.tla.  Input (IOEnv.CASE_FILE):                                 *)
 (*   {"progs": [P, ...], "obs": [{p, given, raised, errclass, val, exec,   *)
-(*                                dup, async, built, twice, conc, loop}]}  *)
+(*                                dup, async, built, twice, conc, loop,    *)
+(*                                pre}]}                                   *)
 (* One state per observation.                                              *)
 (***************************************************************************)
 EXTENDS Dataflow, TLC, Json, IOUtils
@@ -35,7 +36,8 @@ Bad(W) ==
       exp == Eval(P, W.given)
       inEq == ~exp.err              \* inside the equivalence (the plain body does not raise)
       wrongVal == W.raised \/ W.val # exp.val
-      wrongExec == ~W.raised /\ RangeOf(W.exec) # exp.exec
+      \* setup call sites computed by an earlier call on the same DAG object (W.pre) are not executed again
+      wrongExec == ~W.raised /\ RangeOf(W.exec) # exp.exec \ RangeOf(W.pre)
   IN Clauses({
        <<~W.built /\ ~W.twice, "C01.build-error">>,
        <<~W.built /\ HasSub(P), "C20.build-error">>,
